@@ -74,6 +74,11 @@ def _mk():
     # names that Python's int() would read as numbers but that are not "p followed by digits" (digit-group underscores, ...)
     S["pnames_with_digit_groups"] = hdr + parr("p1_0", "float", 2) + parr("p0_1", "int", 2) + parr("p1_", "float", 2) + parr("p10", "float", 2) + [
         "Gate(p1_0, p0_1, k=p1_) | %(m)s", "Gate(p10, k=p1_0) | %(m)s"]
+    # one p-name bound several times: what counts is what the name holds where it is used (a scalar is passed by value, an array
+    # declared later under the same name is a p-array from then on, whatever was registered before)
+    S["scalar_then_parray_same_name"] = hdr + ["float p1 = %(f)s", "Dgate(p1, k=p1) | %(m)s"] + parr("p1", "float", 2) + ["Rgate(p1, k=p1) | %(m)s"]
+    S["parray_declared_twice"] = hdr + parr("p0", "float", 2) + ["Rgate(p0) | %(m)s"] + parr("p0", "int", 3) + ["Sgate(p0, k=p0) | %(m)s"]
+    S["int_scalar_then_parray_then_use_in_loop"] = hdr + ["int p2 = %(m)s"] + parr("p2", "float", 2) + ["for int i in [%(m)s, %(m)s]", "    Rgate(p2, p2[1]) | i"]
     S["bare_p_is_plain"] = hdr + parr("p", "float", 2) + parr("p0", "int", 2) + ["float q = %(f)s", "Gate(p, p0, k=p) | %(m)s", "Rgate(q, j=p0) | %(m)s"]
     # not tdm: the same names are ordinary arrays, passed by value
     nothdr = ["name plain", "version 1.0", ""]
